@@ -61,6 +61,9 @@ type cnDriver struct {
 	syncEvery  int64
 	vrf        vrfView   // VRF backend: epoch, its first height, alpha, proofs seen (end of the previous block)
 	lastRh     []*rhView // round state of the runtimes at the end of the previous block
+	rhQuiet    map[string]int64 // runtime -> round for which no further commitments are generated (left to the round timer)
+	vaults     bool             // vault transactions are generated
+	lastVault  []map[string]any // vault state at the end of the previous block
 	noRounds   bool      // do not submit executor commitments
 	lastPropH  int64     // height of the last successful proposal
 	nProposals int       // governance proposals submitted successfully so far (their ids are 1..nProposals)
@@ -527,6 +530,19 @@ func (d *cnDriver) step() error {
 		}
 		sp := &cnTxSpec{Kind: "regruntime", Signer: e, To: r, Deps: strings.Join(deps, ";"), Gov: []string{"entity", "entity", "runtime"}[d.rng.Intn(3)],
 			Shape: fmt.Sprintf("g%db%dm%dp%dv%ds%d", 1+d.rng.Intn(d.maxGroup), d.rng.Intn(3), d.rng.Intn(3), d.rng.Intn(2), btoi(d.rng.Intn(4) == 0), d.rng.Intn(2)), Nonce: uint64(d.acctField(e, "n")) + nonceBump[e], Gas: 5000, Validity: validity}
+		if d.rng.Intn(2) == 0 {
+			// per-runtime slashing for incorrect results / equivocation with a share of the slashed funds for the runtime's
+			// account: shares of 0..100 % are valid, anything above must be refused by the descriptor checks
+			pcts := []int{0, 30, 100, 100, 101, 150, 255}
+			pe, pb := pcts[d.rng.Intn(4)], pcts[d.rng.Intn(len(pcts))]
+			if d.rng.Intn(6) == 0 {
+				pe = pcts[4+d.rng.Intn(3)]
+			}
+			sp.Slash = fmt.Sprintf("%d:%d:%d", 1+d.rng.Intn(6), pe, pb)
+			if (pe > 100 || pb > 100) && validity == "ok" {
+				sp.Validity = "badpct"
+			}
+		}
 		if raw, err := n.buildTx(sp, d.rng); err == nil {
 			nonceBump[e]++
 			metas = append(metas, cnTxMeta{sp, raw})
@@ -636,6 +652,9 @@ func (d *cnDriver) step() error {
 	}
 	if !d.noRounds {
 		metas = append(metas, d.genCommits(nonceBump)...)
+	}
+	if d.vaults {
+		metas = append(metas, d.genVault(nonceBump)...)
 	}
 	if d.rng.Intn(7) == 0 || (d.nProposals > 0 && h-d.lastPropH <= 2*n.cfg.EpochInterval && d.rng.Intn(2) == 0) {
 		// governance: parameter-change proposals (by entities and users, some with unknown modules / empty content / deposits the
@@ -942,6 +961,13 @@ func (d *cnDriver) observe(b *cnBlock, metas []cnTxMeta) cnBlockResult {
 			th := hash.NewFromBytes(tx)
 			evn := map[string]any{"ev": "tx", "h": b.Height, "i": i, "id": th.String()[:16], "code": int64(resp.Code), "module": resp.Codespace,
 				"gas_used": resp.GasUsed, "nraw": len(changed), "state": proj, "env": env}
+			if d.vaults {
+				vp, verr := n.vaultProjection(st2(r))
+				if verr != nil {
+					panic(verr)
+				}
+				evn["vault"] = vp
+			}
 			if sp := specOf[string(tx)]; sp != nil {
 				if rts, ok := d.pendRts[sp]; ok {
 					if resp.Code == 0 {
@@ -991,6 +1017,9 @@ func (d *cnDriver) observe(b *cnBlock, metas []cnTxMeta) cnBlockResult {
 					delete(n.pendingRot, sp)
 				}
 				evn["spec"] = sp
+				if vr := n.vaultRequest(sp); vr != nil {
+					evn["vreq"] = vr
+				}
 				d.txKinds[sp.Kind+":"+sp.Validity]++
 			} else {
 				evn["spec"] = cnTxSpec{Kind: "system", Validity: "system"}
@@ -1018,11 +1047,23 @@ func (d *cnDriver) observe(b *cnBlock, metas []cnTxMeta) cnBlockResult {
 		if gerr != nil {
 			panic(gerr)
 		}
+		var vltp []map[string]any
+		if d.vaults {
+			var verr error
+			if vltp, verr = n.vaultProjection(st2(r)); verr != nil {
+				panic(verr)
+			}
+		}
 		res.AppHash = r.commit()
 		d.lastProj = proj
 		d.lastReg = regp
+		d.lastVault = vltp
 		d.emit(map[string]any{"ev": "reg", "h": b.Height, "reg": regp})
-		d.emit(map[string]any{"ev": "end", "h": b.Height, "state": proj, "gov": govp, "valupd": res.ValUpd, "valupd2": valRecords(res.ValUpd), "apphash": res.AppHash[:16]})
+		endEv := map[string]any{"ev": "end", "h": b.Height, "state": proj, "gov": govp, "valupd": res.ValUpd, "valupd2": valRecords(res.ValUpd), "apphash": res.AppHash[:16]}
+		if d.vaults {
+			endEv["vault"] = vltp
+		}
+		d.emit(endEv)
 	})
 	if perr != nil {
 		res.Panic = perr.Error()
@@ -1064,6 +1105,7 @@ func consRun(args []string) int {
 	extraNodes := fs.Int("extranodes", 0, "additional validator nodes run by entity 0 (per-entity limit stays 1)")
 	sanity := fs.Bool("sanity", false, "register the in-tree supplementary sanity checker in the observer (it halts the chain on a failure; TLC is the oracle, so it is off by default)")
 	concurrent := fs.Bool("concurrent", true, "run CheckTx / EstimateGas / state queries in goroutines while validator replicas execute blocks")
+	vaults := fs.Bool("vault", false, "generate vault transactions (creation, actions, deposits, withdrawals through the account hook)")
 	logLevel := fs.String("log", "", "oasis-core log level to stderr (debug|info|warn|error); empty = no logging")
 	fs.Parse(args)
 	if *logLevel != "" {
@@ -1091,7 +1133,7 @@ func consRun(args []string) int {
 		fmt.Fprintln(os.Stderr, "net:", err)
 		return 2
 	}
-	d := &cnDriver{net: net, valset: map[int]int64{}, rng: rand.New(rand.NewSource(*seed)), w: bufio.NewWriterSize(w, 1<<20),
+	d := &cnDriver{net: net, vaults: *vaults, rhQuiet: map[string]int64{}, valset: map[int]int64{}, rng: rand.New(rand.NewSource(*seed)), w: bufio.NewWriterSize(w, 1<<20),
 		paths: map[string]int{}, txKinds: map[string]int{}, nodeRts: map[string]string{}, pendRts: map[*cnTxSpec]string{}, rtOwner: map[string]string{}, rtDeps: map[string][][2]int64{}, nodeVer: map[string]int64{}, maxGroup: *maxGroup, noRounds: *noRounds, syncEvery: *syncEvery}
 	if *syncEvery > 0 {
 		d.blockLog = map[int64]*cnLogged{}
